@@ -60,7 +60,7 @@ def case_strategy(draw):
             continue
         wells = draw(st.lists(st.sampled_from(pool), min_size=1 if d["qkind"] != "none" else 0, max_size=3, unique=True)) if pool else []
         apps.append({"action": a, "step": n, "wells": wells})
-    unit = draw(st.sampled_from(["METRIC", "METRIC", "FIELD"]))
+    unit = draw(st.sampled_from(["METRIC", "METRIC", "FIELD", "LAB", "PVT-M"]))
     return {"unit": unit, "blocks": blocks, "final": final, "apps": apps,
             "bodies": {a: d["body"] for a, d in m.action_defs.items()}}
 
